@@ -7,10 +7,13 @@ typedef struct { int64_t x, y; } Point64;
 typedef Point64 PointT; typedef int64_t T;
 double __CPROVER_uninterpreted_fmul(double, double); double __CPROVER_uninterpreted_fdiv(double, double); double __CPROVER_uninterpreted_fadd(double, double); double __CPROVER_uninterpreted_fsub(double, double);
 /* only floating-point operations are abstracted (uninterpreted); integer ones stay the machine operation and are overflow-checked */
-#define vf_fmul(a, b) _Generic((a) * (b), double: __CPROVER_uninterpreted_fmul((double)(a), (double)(b)), default: (a) * (b))
-#define vf_fdiv(a, b) _Generic((a) / (b), double: __CPROVER_uninterpreted_fdiv((double)(a), (double)(b)), default: (a) / (b))
-#define vf_add(a, b) _Generic((a) + (b), double: __CPROVER_uninterpreted_fadd((double)(a), (double)(b)), default: (a) + (b))
-#define vf_sub(a, b) _Generic((a) - (b), double: __CPROVER_uninterpreted_fsub((double)(a), (double)(b)), default: (a) - (b))
+double __CPROVER_uninterpreted_i2d(int64_t);
+/* int64 -> double is uninterpreted as well: the same integer gives the same double, nothing more is needed */
+#define TO_D(v) _Generic((v), double: (v), default: __CPROVER_uninterpreted_i2d(v))
+#define vf_fmul(a, b) _Generic((a) * (b), double: __CPROVER_uninterpreted_fmul(TO_D(a), TO_D(b)), default: (a) * (b))
+#define vf_fdiv(a, b) _Generic((a) / (b), double: __CPROVER_uninterpreted_fdiv(TO_D(a), TO_D(b)), default: (a) / (b))
+#define vf_add(a, b) _Generic((a) + (b), double: __CPROVER_uninterpreted_fadd(TO_D(a), TO_D(b)), default: (a) + (b))
+#define vf_sub(a, b) _Generic((a) - (b), double: __CPROVER_uninterpreted_fsub(TO_D(a), TO_D(b)), default: (a) - (b))
 double g_t, g_det; bool g_t_set;
 int64_t __CPROVER_uninterpreted_d2i(double);
 #define C62 ((int64_t)1 << 62)
@@ -18,6 +21,7 @@ int64_t __CPROVER_uninterpreted_d2i(double);
 #define P62(p) (IN62((p).x) && IN62((p).y))
 //@extract file=CPP/Clipper2Lib/include/clipper2/clipper.core.h func=GetSegmentIntersectPt nth=1 byval=ln1a,ln1b,ln2a,ln2b byptr=ip cpp=NOTHING
 //@pysub fops_all
+//@sub /\(double\)\(/TO_D(/ min=4
 //@sub /double t = ([^;]*);/double t = \1; g_t = t; g_t_set = true;/
 //@sub /if \(det == 0\.0\) return false;/g_det = det; if (det == 0.0) return false;/
 //@sub /\(T\)\(vf_add\(/__CPROVER_uninterpreted_d2i(vf_add(/ min=2
@@ -28,9 +32,26 @@ __CPROVER_ensures(!__CPROVER_return_value ==> (ip->x == __CPROVER_old(ip->x) && 
 /* otherwise the point lies on the FIRST segment: its parameter is clamped to [0, 1], so outside that range the result is exactly an end point of segment 1 */
 __CPROVER_ensures(__CPROVER_return_value ==> (g_t_set && (g_t <= 0.0 ==> (ip->x == ln1a.x && ip->y == ln1a.y)) && (g_t >= 1.0 ==> (ip->x == ln1b.x && ip->y == ln1b.y))))
 /* and inside it, x and y are interpolated from segment 1's own start point and direction with the SAME parameter */
-__CPROVER_ensures((__CPROVER_return_value && g_t > 0.0 && g_t < 1.0) ==> (ip->x == __CPROVER_uninterpreted_d2i(vf_add(ln1a.x, vf_fmul(g_t, (double)(ln1b.x - ln1a.x)))) && ip->y == __CPROVER_uninterpreted_d2i(vf_add(ln1a.y, vf_fmul(g_t, (double)(ln1b.y - ln1a.y))))))
+__CPROVER_ensures((__CPROVER_return_value && g_t > 0.0 && g_t < 1.0) ==> (ip->x == __CPROVER_uninterpreted_d2i(vf_add(ln1a.x, vf_fmul(g_t, TO_D(ln1b.x - ln1a.x)))) && ip->y == __CPROVER_uninterpreted_d2i(vf_add(ln1a.y, vf_fmul(g_t, TO_D(ln1b.y - ln1a.y))))))
 __CPROVER_assigns(*ip, g_t, g_det, g_t_set)
 //@end
 void h_GSI(void) { Point64 a, b, c, d; Point64* ip; GetSegmentIntersectPt(a, b, c, d, ip); VF_CANARY(); }
+/* translation invariance (C13 "translating the input transforms the result accordingly", C18 "within one unit" anywhere in range): the determinant and the interpolation parameter depend on coordinate DIFFERENCES only, so translating all four points by the same vector gives bit-identical det and t, the same verdict and the same clamping; a formula built from absolute coordinates (x3*y4 - y3*x4) loses this and, far from the origin, its accuracy */
+int64_t nondet_i64(void);
+void h_GSI_tr(void)
+{
+  Point64 a, b, c, d, ip1, ip2; int64_t vx = nondet_i64(), vy = nondet_i64();
+  __CPROVER_assume(P62(a) && P62(b) && P62(c) && P62(d) && IN62(vx) && IN62(vy));
+  Point64 a2 = { a.x + vx, a.y + vy }, b2 = { b.x + vx, b.y + vy }, c2 = { c.x + vx, c.y + vy }, d2 = { d.x + vx, d.y + vy };
+  __CPROVER_assume(P62(a2) && P62(b2) && P62(c2) && P62(d2));
+  g_t_set = false; bool r1 = GetSegmentIntersectPt(a, b, c, d, &ip1); double t1 = g_t, det1 = g_det; bool s1 = g_t_set;
+  g_t_set = false; bool r2 = GetSegmentIntersectPt(a2, b2, c2, d2, &ip2); double t2 = g_t, det2 = g_det; bool s2 = g_t_set;
+  #define SAMEBITS(p, q) (*(const int64_t*)&(p) == *(const int64_t*)&(q))
+  __CPROVER_assert(r1 == r2 && SAMEBITS(det1, det2), "same verdict and determinant for the translated segments");
+  __CPROVER_assert(s1 == s2 && (s1 ==> SAMEBITS(t1, t2)), "same interpolation parameter for the translated segments");
+  if (r1 && (t1 <= 0.0 || t1 >= 1.0)) __CPROVER_assert(ip2.x == ip1.x + vx && ip2.y == ip1.y + vy, "clamped results are translated exactly");
+  VF_CANARY();
+}
+//@run name=GetSegmentIntersectPt.translate entry=h_GSI_tr flags="--bounds-check --pointer-check --signed-overflow-check" timeout=120 props=C18,C13
 //@run name=GetSegmentIntersectPt entry=h_GSI enforce=GetSegmentIntersectPt flags="--bounds-check --pointer-check --signed-overflow-check" timeout=120
-//@assume R21c (C18_segint): floating-point +, -, *, / and the double->int64 conversion are uninterpreted functions: what is proved is the clamp structure, which operands go where, and that no INTEGER subtraction overflows for |coordinates| < 2^62; the accuracy of the crossing (C18's "within one unit") is NOT decided.
+//@assume R21c (C18_segint): floating-point +, -, *, /, the int64->double and the double->int64 conversion are uninterpreted functions: what is proved is the clamp structure, which operands go where, and that no INTEGER subtraction overflows for |coordinates| < 2^62; the accuracy of the crossing (C18's "within one unit") is NOT decided.
